@@ -10,8 +10,8 @@ def main(argv):
     vlib.build_harness()
     th = rep.tier == 'thorough'
     parts_subject.run_seq(rep, PID, th)
-    parts_subject.lin_part(rep, PID, 1000 if th else 400, [rep.seed * 100 + i for i in range(6 if th else 1)], park=False)
-    parts_subject.lin_part(rep, PID, 100 if th else 25, [rep.seed * 100 + 50 + i for i in range(3 if th else 1)], park=True)
+    parts_subject.lin_part(rep, PID, 2000 if th else 1200, [rep.seed * 100 + i for i in range(6 if th else 1)], park=False)
+    parts_subject.lin_part(rep, PID, 150 if th else 60, [rep.seed * 100 + 50 + i for i in range(3 if th else 1)], park=True)
     rep.cov['rule'] = ('(a) TLC enumerates EVERY operation sequence up to 4-6 operations over {Next 1, Next 2, Error, Complete, Subscribe i, self-unsubscribing Subscribe i, '
                        'Unsubscribe i} for publish / behavior / replay(0,1,2,unlimited) / async / unicast(0,1,2,unlimited) against SubjectSeq.tla and the real subject is driven through '
                        'each (deliveries per subscriber and getters compared after each operation); (b) concurrent histories of 2-4 threads (free-running with yield hooks, and '
